@@ -10,6 +10,7 @@ import (
 	"testing"
 	"time"
 
+	"github.com/pion/datachannel"
 	kit "github.com/pion/webrtc/v4/internal/verifkit"
 )
 
@@ -33,6 +34,15 @@ type c18Chan struct {
 	mu    sync.Mutex
 	seq   []int    // distinct consecutive ID() observations, -1 = nil
 	where []string // where each element of seq was first observed
+	// detach dimension (c18_detach_test.go)
+	clk        *atomic.Int64 // the pair's order clock
+	idSeenOrd  int64         // stamped when ID() was first observed non-nil (so: after the id was assigned); under mu
+	startOrd   int64         // stamped BEFORE the creating call was made (remote: when OnDataChannel fired)
+	detaching  atomic.Bool  // Detach() is called at most once per object
+	detachOrd  atomic.Int64 // stamped AFTER Detach() returned; 0 = not detached
+	detachBeg  atomic.Int64 // stamped BEFORE Detach() was called
+	raw        datachannel.ReadWriteCloser
+	detachedAt string // onopen | later
 }
 
 func (c *c18Chan) sample(where string) int {
@@ -45,6 +55,9 @@ func (c *c18Chan) sample(where string) int {
 	if len(c.seq) == 0 || c.seq[len(c.seq)-1] != v {
 		c.seq = append(c.seq, v)
 		c.where = append(c.where, where)
+	}
+	if v >= 0 && c.idSeenOrd == 0 && c.clk != nil {
+		c.idSeenOrd = c.clk.Add(1)
 	}
 	c.mu.Unlock()
 
@@ -66,10 +79,17 @@ type c18Pair struct {
 	nLbl  atomic.Int64
 	nOrd  atomic.Int64
 	live  atomic.Bool // set when signalling starts: channels created from then on are not "pre"
+	// detach dimension (c18_detach_test.go)
+	plan       c18DetachPlan
+	closedIDs  map[int]bool // stream ids the harness closed in a pair with a detach-mode peer
+	detachErrs map[string]int
 }
 
 func (p *c18Pair) add(c *c18Chan) {
 	c.ord = p.nOrd.Add(1)
+	if c.startOrd == 0 {
+		c.startOrd = c.ord
+	}
 	p.mu.Lock()
 	p.chans[c.side] = append(p.chans[c.side], c)
 	p.mu.Unlock()
@@ -111,16 +131,17 @@ func c18ErrKey(err error) string {
 func (p *c18Pair) createAuto(side int, tag string, init *DataChannelInit) {
 	label := fmt.Sprintf("a%d-%s-%d", side, tag, p.nLbl.Add(1))
 	pre := !p.live.Load()
+	startOrd := p.nOrd.Add(1)
 	dc, err := p.pcs[side].CreateDataChannel(label, init)
 	if err != nil {
 		p.noteErr(err)
 
 		return
 	}
-	c := &c18Chan{dc: dc, side: side, kind: "auto", label: label, pre: pre}
+	c := &c18Chan{dc: dc, side: side, kind: "auto", label: label, pre: pre, startOrd: startOrd, clk: &p.nOrd}
 	c.sample("created")
-	dc.OnOpen(func() { c.sample("onopen") })
 	p.add(c)
+	dc.OnOpen(func() { p.onOpen(c) })
 }
 
 // createExplicit creates the application-negotiated channel `id` on BOTH peers (that is what negotiated means).
@@ -129,16 +150,17 @@ func (p *c18Pair) createExplicit(id uint16, tag string) {
 		v, yes := id, true // fresh variables: the PeerConnection keeps the pointer it is given
 		label := fmt.Sprintf("x%d-%s-%d", side, tag, id)
 		pre := !p.live.Load()
+		startOrd := p.nOrd.Add(1)
 		dc, err := p.pcs[side].CreateDataChannel(label, &DataChannelInit{ID: &v, Negotiated: &yes})
 		if err != nil {
 			p.noteErr(err)
 
 			continue
 		}
-		c := &c18Chan{dc: dc, side: side, kind: "explicit", label: label, pre: pre}
+		c := &c18Chan{dc: dc, side: side, kind: "explicit", label: label, pre: pre, startOrd: startOrd, clk: &p.nOrd}
 		c.sample("created")
-		dc.OnOpen(func() { c.sample("onopen") })
 		p.add(c)
+		dc.OnOpen(func() { p.onOpen(c) })
 	}
 }
 
@@ -268,7 +290,8 @@ func (ck *c18Checker) check(where string, quiescent bool) { //nolint:gocognit,cy
 						continue // both ids chosen outside this PeerConnection: not "assigned"
 					}
 					key := fmt.Sprintf("dup/%d/%s/%s", side, x.c.label, y.c.label)
-					if x.state == DataChannelStateClosed || y.state == DataChannelStateClosed {
+					// a stream the harness closed in a pair with a detach-mode peer never reports "closed" (no read loop there)
+					if x.state == DataChannelStateClosed || y.state == DataChannelStateClosed || ck.p.isClosedID(id) {
 						if !ck.reuse[key] {
 							ck.reuse[key] = true
 							ck.run.Count("reuse_after_close", 1)
@@ -290,12 +313,35 @@ func (ck *c18Checker) check(where string, quiescent bool) { //nolint:gocognit,cy
 					} else if x.c.pre || y.c.pre {
 						hist = "one-pre-connect"
 					}
+					// detach history class: one of the two had been handed to the application with Detach() (it stays alive on its
+					// stream but is no longer in the transport's channel list; stamp taken before the Detach call) before the other
+					// one was first seen with the id (stamp taken after the assignment),
+					// i.e. the id may have been handed out again after the detach of a holder
+					detachNote := ""
+					later := x.c // the one of the two that was seen with the id last: it was given an id that was already held
+					if y.c.idSeen() > later.idSeen() {
+						later = y.c
+					}
+					for _, h := range group { // any holder of this id on this peer, not only the other one of the two
+						if d := h.c.detachBeg.Load(); h.c != later && h.c.detachOrd.Load() > 0 && d < later.idSeen() {
+							hist += ":holder-detached-before"
+							detachNote = fmt.Sprintf("; %q (same id) had been detached (%s) before %q was first seen with the id, and is still alive",
+								h.c.label, h.c.detachWhere(), later.label)
+
+							break
+						}
+					}
 					ck.violate(key, "duplicate-id:"+kinds[0]+"-vs-"+kinds[1]+":"+hist,
-						fmt.Sprintf("side %d (%s): id %d is held by %s channel %q (%s) and %s channel %q (%s) at the same time (%s)",
-							side, ck.role[side], id, x.c.kind, x.c.label, x.state, y.c.kind, y.c.label, y.state, where),
+						fmt.Sprintf("side %d (%s): id %d is held by %s channel %q (%s) and %s channel %q (%s) at the same time (%s)%s",
+							side, ck.role[side], id, x.c.kind, x.c.label, x.state, y.c.kind, y.c.label, y.state, where, detachNote),
 						map[string]any{"side": side, "id": id, "a": x.c.label, "a_kind": x.c.kind, "a_state": x.state.String(),
 							"b": y.c.label, "b_kind": y.c.kind, "b_state": y.state.String(), "at": where,
-							"a_created_pre_connect": x.c.pre, "b_created_pre_connect": y.c.pre, "a_order": x.c.ord, "b_order": y.c.ord})
+							"a_created_pre_connect": x.c.pre, "b_created_pre_connect": y.c.pre, "a_order": x.c.ord, "b_order": y.c.ord,
+							"a_detach_order": x.c.detachOrd.Load(), "b_detach_order": y.c.detachOrd.Load(),
+							"a_detach_call_order": x.c.detachBeg.Load(), "b_detach_call_order": y.c.detachBeg.Load(),
+							"a_create_started_order": x.c.startOrd, "b_create_started_order": y.c.startOrd,
+							"a_id_first_seen_order": x.c.idSeen(), "b_id_first_seen_order": y.c.idSeen(),
+							"detach_plan": ck.p.plan.String()})
 				}
 			}
 		}
@@ -411,7 +457,10 @@ func TestVerifC18(t *testing.T) { //nolint:gocognit,cyclop,maintidx
 		"(CreateDataChannel without id from 0..8 goroutines per peer) in explicit-first / in-band-first / interleaved order, then in-band creations "+
 		"while the connection is being established, and after (explicit ids among the free ones, then both peers concurrently), random closes followed by new creations; every 6th pair "+
 		"runs at the end of the id range (used-set pre-filled white-box up to ~65500..65531 + real explicit channels in 65526..65534). ID() of every "+
-		"channel object sampled at creation, in OnOpen, by a background sampler and after each step. A pair is non-trivial when at least two ids were "+
+		"channel object sampled at creation, in OnOpen, by a background sampler and after each step. Detach dimension: in ~36% of the pairs one or both peers run with "+
+		"SettingEngine.DetachDataChannels(); channels of such a peer (in-band, negotiated, remote-created) are Detach()ed in OnOpen with a per-peer probability "+
+		"(0/35/70/100%) and 0..3 more per round from the application goroutine, the raw handle is written to, and all later creation rounds run against the still "+
+		"alive detached channels (closes there via raw handle or DataChannel.Close). A pair is non-trivial when at least two ids were "+
 		"auto-assigned on one peer that also held an explicit or remote-created channel; distinct by the generated operation list")
 	defer run.Finish()
 	sched := kit.NewSched(kit.Seed())
@@ -436,18 +485,33 @@ func TestVerifC18(t *testing.T) { //nolint:gocognit,cyclop,maintidx
 		op := func(f string, a ...any) { ops = append(ops, fmt.Sprintf(f, a...)) }
 		op("answerer=%s boundary=%v", answererRole, boundary)
 
-		p := &c18Pair{errs: map[string]int{}}
+		p := &c18Pair{errs: map[string]int{}, closedIDs: map[int]bool{}, detachErrs: map[string]int{}}
+		// detach dimension: drawn from a generator of its own, so that the rest of the case does not depend on it
+		rd := kit.NewRand(kit.Seed()^0xC18DE7AC4, uint64(i)) //nolint:gosec
+		p.plan = c18GenDetachPlan(rd)
+		if p.plan.any() {
+			op("detach=%s", p.plan)
+		}
 		cfg := Configuration{AlwaysNegotiateDataChannels: true}
-		p.pcs[0] = rigMustPC(rigOpts{Cfg: cfg})
-		p.pcs[1] = rigMustPC(rigOpts{Cfg: cfg, SE: func(se *SettingEngine) { _ = se.SetAnsweringDTLSRole(answererRole) }})
+		p.pcs[0] = rigMustPC(rigOpts{Cfg: cfg, SE: func(se *SettingEngine) {
+			if p.plan.mode[0] {
+				se.DetachDataChannels()
+			}
+		}})
+		p.pcs[1] = rigMustPC(rigOpts{Cfg: cfg, SE: func(se *SettingEngine) {
+			_ = se.SetAnsweringDTLSRole(answererRole)
+			if p.plan.mode[1] {
+				se.DetachDataChannels()
+			}
+		}})
 		defer rigClose(p.pcs[0], p.pcs[1])
 		for side := 0; side < 2; side++ {
 			side := side
 			p.pcs[side].OnDataChannel(func(dc *DataChannel) {
-				c := &c18Chan{dc: dc, side: side, kind: "remote", label: fmt.Sprintf("r%d-%s", side, dc.Label())}
+				c := &c18Chan{dc: dc, side: side, kind: "remote", label: fmt.Sprintf("r%d-%s", side, dc.Label()), clk: &p.nOrd}
 				c.sample("ondatachannel")
-				dc.OnOpen(func() { c.sample("onopen") })
 				p.add(c)
+				dc.OnOpen(func() { p.onOpen(c) })
 			})
 		}
 		ck := &c18Checker{run: run, idx: i, p: p, reported: map[string]bool{}, reuse: map[string]bool{},
@@ -725,13 +789,17 @@ func TestVerifC18(t *testing.T) { //nolint:gocognit,cyclop,maintidx
 				return
 			}
 			ck.check(tag+"-settled", true)
+			if p.plan.any() { // more channels handed to the application, from its own goroutine this time
+				op("%s-detach=%v", tag, p.detachLater(rd))
+				ck.check(tag+"-detached", true)
+			}
 
 			// random closes, then the next round creates again
 			if round+1 < rounds || r.Chance(0.5) {
 				var open []*c18Chan
 				for side := 0; side < 2; side++ {
 					for _, c := range p.list(side) {
-						if c.dc.ReadyState() == DataChannelStateOpen {
+						if c.dc.ReadyState() == DataChannelStateOpen && !p.isClosedID(c.sample("poll")) {
 							open = append(open, c)
 						}
 					}
@@ -744,7 +812,11 @@ func TestVerifC18(t *testing.T) { //nolint:gocognit,cyclop,maintidx
 					// one Close per channel: closing both ends at once runs into the closed→closing race that C20 reports
 					if id := c.sample("close"); !picked[id] {
 						picked[id] = true
-						_ = c.dc.Close()
+						if p.plan.any() {
+							p.closeInDetachPair(c, id, rd.Bool())
+						} else {
+							_ = c.dc.Close()
+						}
 						closedIDs = append(closedIDs, id)
 					}
 				}
@@ -752,6 +824,13 @@ func TestVerifC18(t *testing.T) { //nolint:gocognit,cyclop,maintidx
 				sort.Ints(closedIDs)
 				op("%s-close=%v", tag, closedIDs)
 				run.Count("closes", k)
+				if p.plan.any() {
+					// no read loop on a detach-mode peer: the ends do not reach "closed" by themselves, nothing to wait for
+					run.Count("closes_in_detach_pairs", k)
+					ck.check(tag+"-closed", true)
+
+					continue
+				}
 				// wait (watchdog) until every channel object with one of those ids is closed on both peers
 				want := map[int]bool{}
 				for _, id := range closedIDs {
@@ -807,6 +886,7 @@ func TestVerifC18(t *testing.T) { //nolint:gocognit,cyclop,maintidx
 		// ---- evidence
 		nontrivial := false
 		total := 0
+		ck.detachEvidence()
 		for side := 0; side < 2; side++ {
 			// pre-connection order classes actually exercised on this peer: a negotiated id claimed while older in-band
 			// channels were still waiting for their id, and whether the allocator then really had to step over it
